@@ -252,7 +252,10 @@ impl quote::ToTokens for TraitBound {
         let mut iter = self.0.segments.iter().rev();
         let last_elem = iter.next().unwrap();
 
-        iter.rev().for_each(|elem| elem.to_tokens(tokens));
+        iter.rev().for_each(|elem| {
+            elem.to_tokens(tokens);
+            <syn::Token![::]>::default().to_tokens(tokens);
+        });
         last_elem.ident.to_tokens(tokens);
 
         match &last_elem.arguments {
